@@ -30,9 +30,15 @@ def run_one(d, verif, repo):
     props = meta["property"] if isinstance(meta["property"], list) else [meta["property"]]
     patch = os.path.join(d, "patch.diff")
     rows = []
-    if git(repo, "apply", "--check", patch).returncode != 0:
-        return [(os.path.basename(d), props[0], "patch does not apply", "")]
-    git(repo, "apply", patch)
+    if git(repo, "apply", "--check", patch).returncode == 0:
+        git(repo, "apply", patch)
+    else:
+        # later add-only hook lines may have shifted the context: retry with fuzz
+        pr = subprocess.run(["patch", "-p1", "-F3", "-s", "--no-backup-if-mismatch", "-i", patch], cwd=repo, capture_output=True, text=True)
+        if pr.returncode != 0:
+            git(repo, "checkout", "--", ".")
+            subprocess.run(["git", "-C", repo, "clean", "-fdq", "--", "app", "sdk"], capture_output=True)
+            return [(os.path.basename(d), props[0], "patch does not apply", "")]
     try:
         for pid in props + meta.get("also_check", []):
             t0 = time.time()
